@@ -89,6 +89,15 @@ def cases(rng, tier, shard, nshards):
             yield {"k": "deep", "n": rng.choice([40, 250, 400, 1200]), "rt": rng.choice("OU"), "vlevel": rng.choice([0, 1]),
                    "what": rng.choice(["rm-segment", "rm-segment", "rm-inner-group", "write+validate"])}
             continue
+        if rng.random() < 0.06:
+            # a line object of a valid document gets one of its fields re-assigned as a string which is
+            # valid for that field but does not fit the rest of the line (a list of another length, the
+            # field of another line of the same type), and is then added to the Gfa of the other lines
+            d1 = G.gen_doc(rng, canonical=True)
+            d2 = G.gen_doc(rng, version=d1.version, canonical=True)
+            yield {"k": "edit-add", "lines": d1.lines(), "donors": d2.lines(), "version": d1.version,
+                   "vlevel": rng.choice([0, 1, 2, 3]), "seed": rng.getrandbits(32)}
+            continue
         cfg = {"vlevel": rng.choice([0, 0, 1, 1, 2, 3]), "version": rng.choice([None, None, "gfa1", "gfa2"]),
                "dialect": rng.choice(["standard", "standard", "standard", "rgfa"])}
         if r < 0.35:
@@ -260,6 +269,60 @@ def sweep_gfa(ctx, g, nb):
     guarded(ctx, "str(gfa)", nb, str, g)
 
 
+def run_edit_add(case, ctx):
+    rng = random.Random(case["seed"])
+    lines, version, vlevel = case["lines"], case["version"], case["vlevel"]
+    cand = [i for i, l in enumerate(lines) if l.split("\t")[0] in ("L", "C", "P", "E", "G", "F", "O", "U")]
+    if not cand:
+        return
+    i = rng.choice(cand)
+    rest = lines[:i] + lines[i + 1:]
+    nb = sum(len(l) + 1 for l in lines)
+    rt = lines[i].split("\t")[0]
+    lr = guarded(ctx, "Line(str)", nb, gfapy.Line, lines[i], vlevel=vlevel, version=version)
+    if lr is None or not lr.ok:
+        return
+    line = lr.value
+    fns = call(ctx, "positional_fieldnames", lambda: list(line.positional_fieldnames))
+    if not fns.ok or not fns.value:
+        return
+    fn = rng.choice(fns.value)
+    cur = call(ctx, "field_to_s", line.field_to_s, fn)
+    if not cur.ok:
+        return
+    donors = [l for l in case["donors"] + lines if l.split("\t")[0] == rt and l != lines[i]]
+    value = None
+    how = rng.choice(["donor", "shorter", "longer", "donor"])
+    if how == "donor" and donors:
+        dl = call(ctx, "Line(str)", gfapy.Line, rng.choice(donors), vlevel=0, version=version)
+        if dl.ok:
+            dv = call(ctx, "field_to_s", dl.value.field_to_s, fn)
+            if dv.ok:
+                value = dv.value
+    if value is None:
+        sep = "," if "," in cur.value else " "
+        parts = cur.value.split(sep)
+        if how == "shorter" and len(parts) > 1:
+            value = sep.join(parts[:rng.randint(1, len(parts) - 1)])
+        else:
+            value = sep.join(parts + parts[:rng.randint(1, len(parts))])
+    ctx.count("edited_lines_added")
+    ctx.add("edited_fields", "%s.%s" % (rt, fn))
+    r = guarded(ctx, "line.set (unconnected line)", nb, line.set, fn, value)
+    gr = guarded(ctx, "Gfa(list)", nb, gfapy.Gfa, list(rest), version=version, vlevel=vlevel)
+    if gr is None or not gr.ok:
+        return
+    g = gr.value
+    guarded(ctx, "gfa.add_line(edited line)", nb, g.add_line, line)
+    guarded(ctx, "gfa.validate", nb, g.validate)
+    guarded(ctx, "str(gfa)", nb, str, g)
+    if rng.random() < 0.5:
+        poke_gfa(ctx, rng, g, nb)
+    else:
+        sweep_gfa(ctx, g, nb)
+    ctx.nontriv([rt, fn, how, vlevel])
+
+
 def run(case, ctx):
     import random
     k = case["k"]
@@ -271,6 +334,8 @@ def run(case, ctx):
         return
     if k == "cli":
         return run_cli(case, ctx)
+    if k == "edit-add":
+        return run_edit_add(case, ctx)
     if k == "deep":
         n, rt = case["n"], case["rt"]
         o = "+" if rt == "O" else ""
